@@ -42,6 +42,11 @@ def make_rule(name: str):
         return P.RewriteRule(lambda op, x: op.Neg(op.Neg(x)), lambda op, x: op.Identity(x), name=name)
     if name == "mul_one":
         return P.RewriteRule(lambda op, x: op.Mul(x, 1.0), lambda op, x: op.Identity(x), name=name)
+    if name == "mul_one_passthrough":
+        # the replacement IS one of the pattern's inputs (no new node): x * 1 -> x
+        return P.RewriteRule(lambda op, x: op.Mul(x, 1.0), lambda op, x: x, name=name)
+    if name == "neg_neg_passthrough":
+        return P.RewriteRule(lambda op, x: op.Neg(op.Neg(x)), lambda op, x: x, name=name)
     if name == "relu_neg_two_outputs":
         def pat(op, x):
             r = op.Relu(x)
@@ -83,7 +88,9 @@ def make_rule(name: str):
 RULES = ["reemit_relu", "swap_add", "double_transpose", "neg_neg", "mul_one", "relu_neg_two_outputs", "sub_to_add_neg",
          "add_const_reassoc", "neg_neg_as_function", "relu_neg_keep_nodes", "mul_add_as_function",
          # multi-output patterns whose hosts put a consumer of the first output BETWEEN the matched output nodes
-         "relu_neg_two_outputs_between", "two_roots", "two_roots_between", "two_roots_second_first"]
+         "relu_neg_two_outputs_between", "two_roots", "two_roots_between", "two_roots_second_first",
+         # replacements that return a pattern input itself
+         "mul_one_passthrough", "neg_neg_passthrough"]
 
 
 def instance(rule: str, src: str, pfx: str, nodes: list, inits: list):
@@ -100,11 +107,11 @@ def instance(rule: str, src: str, pfx: str, nodes: list, inits: list):
         nodes.append(oh.make_node("Transpose", [src], [n("t1")], perm=[1, 0]))
         nodes.append(oh.make_node("Transpose", [n("t1")], [n("t2")], perm=[1, 0]))
         return n("t2"), [n("t1")]
-    if rule in ("neg_neg", "neg_neg_as_function"):
+    if rule in ("neg_neg", "neg_neg_as_function", "neg_neg_passthrough"):
         nodes.append(oh.make_node("Neg", [src], [n("n1")]))
         nodes.append(oh.make_node("Neg", [n("n1")], [n("n2")]))
         return n("n2"), [n("n1")]
-    if rule == "mul_one":
+    if rule in ("mul_one", "mul_one_passthrough"):
         inits.append(nh.from_array(np.array(1.0, dtype=np.float32), n("one")))
         nodes.append(oh.make_node("Mul", [src, n("one")], [n("m")]))
         return n("m"), []
